@@ -1,17 +1,21 @@
-(* Synchronous channel: the write lock serialises whole calls (C01 for the unqueued channel). *)
+(* Synchronous channel: lock discipline (C01/C07), close protocol (C05/C11), progress and termination. *)
 From Coq Require Import List Arith Bool Lia.
 From GN Require Import Model.SyncChan.
 Import ListNotations.
 
-Definition holds (t : ythread) : bool := match t with YWriter _ (YWrite | YFlush) _ => true | _ => false end.
-Fixpoint ycnt (l : list ythread) : nat := match l with [] => 0 | t :: r => (if holds t then 1 else 0) + ycnt r end.
-Definition cnt_in (p : nat) (l : list nat) : nat := count_occ Nat.eq_dec l p.
-Fixpoint ysum (p : nat) (l : list ythread) : nat := match l with [] => 0 | t :: r => cnt_in p (y_pending t) + ysum p r end.
-
-Record SInv (s : sst) : Prop := {
-  S_lock : forall j t, nth_error (sc_threads s) j = Some t -> (holds t = true <-> sc_lock s = Some j);
-  S_log : sc_tlog s = sc_accepted s;
-  S_once : forall p, cnt_in p (sc_tlog s) + ysum p (sc_threads s) <= 1 }.
+Definition y_holds (t : ythread) : bool :=
+  match t with
+  | YWriter calls pc _ => match pc with YWrite | YFlush => match calls with [] => false | _ => true end | _ => false end
+  | _ => false
+  end.
+Definition y_cnt_in (p : nat) (l : list nat) : nat := count_occ Nat.eq_dec l p.
+(* payloads refused with the close error *)
+Definition y_refused (t : ythread) : list nat :=
+  match t with YWriter _ _ res => flat_map (fun '(p, r) => match r with YClosed => [p] | _ => [] end) res | _ => [] end.
+Definition y_oks (t : ythread) : list nat :=
+  match t with YWriter _ _ res => flat_map (fun '(p, r) => match r with YOk => [p] | _ => [] end) res | _ => [] end.
+Fixpoint ysum (p : nat) (l : list ythread) : nat :=
+  match l with [] => 0 | t :: r => y_cnt_in p (y_pending t) + y_cnt_in p (y_refused t) + ysum p r end.
 
 Lemma ynth_same l i x t : nth_error l i = Some t -> nth_error (yupd l i x) i = Some x.
 Proof. revert i; induction l as [|a l IH]; intros [|i] H; simpl in *; try discriminate; auto. Qed.
@@ -24,43 +28,273 @@ Proof.
   - left. rewrite (ynth_same _ _ _ _ Hi) in H. inversion H. auto.
   - right. rewrite ynth_other in H by auto. auto.
 Qed.
+Lemma yupd_length l i x : length (yupd l i x) = length l.
+Proof. revert i; induction l as [|a l IH]; intros [|i]; simpl; auto. Qed.
 Lemma ysum_upd p l i t t' : nth_error l i = Some t ->
-  ysum p (yupd l i t') + cnt_in p (y_pending t) = ysum p l + cnt_in p (y_pending t').
+  ysum p (yupd l i t') + (y_cnt_in p (y_pending t) + y_cnt_in p (y_refused t)) = ysum p l + (y_cnt_in p (y_pending t') + y_cnt_in p (y_refused t')).
 Proof.
   revert i; induction l as [|a l IH]; intros [|i] H; simpl in *; try discriminate.
   - inversion H; subst. lia.
   - specialize (IH _ H). lia.
 Qed.
 
-Ltac ycases H :=
-  unfold sc_step, y_ret in H;
-  repeat match type of H with
-         | context [match ?x with _ => _ end] => destruct x eqn:?; try discriminate H
-         end; inversion H; subst; clear H;
-  cbn [y_set sc_lock sc_closed sc_tclosed sc_tlog sc_accepted sc_flushed sc_threads] in *.
+Definition early (pc : ykpc) : bool := match pc with KSetErr | KTClose | KTClosing => true | _ => false end.
+Definition late (pc : ykpc) : bool := match pc with KCancel | KInactive => true | _ => false end.
+Definition past (pc : ykpc) : bool := match pc with KCas => false | _ => true end.
+
+(* ---------- the close protocol ---------- *)
+Record KInv (s : sst) : Prop := {
+  K_ret : sc_creturned s = true -> sc_closed s = true;
+  K_past : forall j e pc, nth_error (sc_threads s) j = Some (YCloser e pc) -> past pc = true ->
+             sc_closed s = true /\ sc_winner s = Some e /\ sc_inactive s = [] /\
+             (early pc = true -> sc_tclosed s = 0) /\ (late pc = true -> sc_tclosed s = 1) /\ (pc = KInactive -> sc_ctx s = true);
+  K_one : forall i j ei pi ej pj, nth_error (sc_threads s) i = Some (YCloser ei pi) ->
+             nth_error (sc_threads s) j = Some (YCloser ej pj) -> past pi = true -> past pj = true -> i = j;
+  K_open : sc_closed s = false -> sc_tclosed s = 0 /\ sc_inactive s = [] /\ sc_winner s = None;
+  K_t : sc_tclosed s <= 1;
+  K_ina : match sc_inactive s with [] => True | [e] => sc_winner s = Some e /\ sc_tclosed s = 1 /\ sc_ctx s = true
+          | _ => False end;
+  K_done : sc_inactive s <> [] -> forall j e pc, nth_error (sc_threads s) j = Some (YCloser e pc) -> pc = KCas }.
+
+Ltac thr_cases Hi Hn :=
+  destruct (ynth_cases _ _ _ _ _ _ Hi Hn) as [[<- ?E]|[?Hne ?Hj]].
+
+Lemma kinv_step s e s' : KInv s -> sc_step s e = Some s' -> KInv s'.
+Proof.
+  intros K H. destruct e as [i f|]; cbn [sc_step] in H.
+  2:{ inversion H; subst; clear H. destruct K as [K1 K2 K3 K4 K5 K6 K7]. constructor; cbn; auto.
+      - intros j e pc Hn Hp. destruct (K2 _ _ _ Hn Hp) as (a & b & c & d & e' & g). repeat split; auto.
+      - destruct (sc_inactive s) as [|a [|b l]]; auto. destruct K6 as (a1 & a2 & a3). repeat split; auto. }
+  destruct (nth_error (sc_threads s) i) as [t|] eqn:Hi; [|discriminate].
+  destruct t as [calls pc res|er pc|]; [| |discriminate].
+  - (* writer steps: the close-protocol fields are untouched, the updated thread is a writer *)
+    destruct calls as [|c rest]; [discriminate|].
+    assert (W : exists lk tl fl t', s' = y_set s lk tl fl i t' /\ (forall e pc, t' <> YCloser e pc)).
+    { destruct pc; cbn [y_ret] in H;
+        repeat match type of H with context [if ?b then _ else _] => destruct b end;
+        try (destruct (sc_lock s); [discriminate|]);
+        inversion H; subst; do 4 eexists; (split; [reflexivity|intros; discriminate]). }
+    destruct W as (lk & tl & fl & t' & -> & Hw). clear H.
+    destruct K as [K1 K2 K3 K4 K5 K6 K7]. constructor; cbn [y_set sc_closed sc_ctx sc_tclosed sc_creturned sc_winner sc_inactive sc_threads]; auto.
+    + intros j e pc0 Hn. thr_cases Hi Hn; [exfalso; eapply Hw; eauto|]. eapply K2; eauto.
+    + intros a b ea pa eb pb Ha Hb. thr_cases Hi Ha; [exfalso; eapply Hw; eauto|].
+      thr_cases Hi Hb; [exfalso; eapply Hw; eauto|]. eapply K3; eauto.
+    + intros Hne j e pc0 Hn. thr_cases Hi Hn; [exfalso; eapply Hw; eauto|]. eapply K7; eauto.
+  - (* closer steps *)
+    destruct K as [K1 K2 K3 K4 K5 K6 K7].
+    destruct pc; cbn in H.
+    + (* CAS *)
+      destruct (sc_closed s) eqn:Ec; inversion H; subst; clear H.
+      * constructor; cbn [k_set sc_closed sc_ctx sc_tclosed sc_creturned sc_winner sc_inactive sc_threads].
+        -- reflexivity.
+        -- intros j e pc0 Hn. thr_cases Hi Hn; [discriminate|]. eapply K2; eauto.
+        -- intros a b ea pa eb pb Ha Hb. thr_cases Hi Ha; [discriminate|]. thr_cases Hi Hb; [discriminate|]. eapply K3; eauto.
+        -- intros Hc; discriminate.
+        -- exact K5.
+        -- exact K6.
+        -- intros Hne j e pc0 Hn. thr_cases Hi Hn; [discriminate|]. eapply K7; eauto.
+      * destruct (K4 eq_refl) as (T0 & I0 & W0).
+        assert (Hnone : forall j e pc0, nth_error (sc_threads s) j = Some (YCloser e pc0) -> past pc0 = false).
+        { intros j e pc0 Hn. destruct (past pc0) eqn:Ep; [|reflexivity]. destruct (K2 _ _ _ Hn Ep) as [Hx _]. congruence. }
+        constructor; cbn [k_set sc_closed sc_ctx sc_tclosed sc_creturned sc_winner sc_inactive sc_threads].
+        -- reflexivity.
+        -- intros j e pc0 Hn Hp. thr_cases Hi Hn.
+           ++ inversion E; subst. rewrite T0, I0. repeat split; auto; intros Hl; discriminate.
+           ++ rewrite (Hnone _ _ _ Hj) in Hp. discriminate.
+        -- intros a b ea pa eb pb Ha Hb Hpa Hpb. thr_cases Hi Ha; thr_cases Hi Hb; auto.
+           ++ rewrite (Hnone _ _ _ Hj) in Hpb. discriminate.
+           ++ rewrite (Hnone _ _ _ Hj) in Hpa. discriminate.
+           ++ rewrite (Hnone _ _ _ Hj) in Hpa. discriminate.
+        -- intros Hc; discriminate.
+        -- exact K5.
+        -- rewrite I0. exact I.
+        -- rewrite I0. intros Hx; congruence.
+    + (* seterr *) inversion H; subst; clear H.
+      destruct (K2 _ _ _ Hi eq_refl) as (C1 & W1 & I1 & E1 & L1 & X1).
+      constructor; cbn [k_set sc_closed sc_ctx sc_tclosed sc_creturned sc_winner sc_inactive sc_threads].
+      * exact K1.
+      * intros j e pc0 Hn Hp. thr_cases Hi Hn; [inversion E; subst; repeat split; auto; intros; discriminate|eapply K2; eauto].
+      * intros a b ea pa eb pb Ha Hb Hpa Hpb. thr_cases Hi Ha; thr_cases Hi Hb; auto; try (eapply (K3 a b); eauto; fail); try (eapply K3; eauto; fail).
+      * exact K4.
+      * exact K5.
+      * exact K6.
+      * intros Hne. congruence.
+    + (* tclose *) inversion H; subst; clear H.
+      destruct (K2 _ _ _ Hi eq_refl) as (C1 & W1 & I1 & E1 & L1 & X1).
+      constructor; cbn [k_set sc_closed sc_ctx sc_tclosed sc_creturned sc_winner sc_inactive sc_threads].
+      * exact K1.
+      * intros j e pc0 Hn Hp. thr_cases Hi Hn; [inversion E; subst; repeat split; auto; intros; discriminate|eapply K2; eauto].
+      * intros a b ea pa eb pb Ha Hb Hpa Hpb. thr_cases Hi Ha; thr_cases Hi Hb; auto; try (eapply (K3 a b); eauto; fail); try (eapply K3; eauto; fail).
+      * exact K4.
+      * exact K5.
+      * exact K6.
+      * intros Hne. congruence.
+    + (* transport.Close *) inversion H; subst; clear H.
+      destruct (K2 _ _ _ Hi eq_refl) as (C1 & W1 & I1 & E1 & L1 & X1). specialize (E1 eq_refl).
+      assert (Hother : forall j e pc0, j <> i -> nth_error (sc_threads s) j = Some (YCloser e pc0) -> past pc0 = false).
+      { intros j e pc0 Hne Hn. destruct (past pc0) eqn:Ep; [|reflexivity]. exfalso. apply Hne. eapply K3; eauto. }
+      constructor; cbn [k_set sc_closed sc_ctx sc_tclosed sc_creturned sc_winner sc_inactive sc_threads].
+      * exact K1.
+      * intros j e pc0 Hn Hp. thr_cases Hi Hn.
+        -- inversion E; subst. rewrite E1. repeat split; auto; intros; discriminate.
+        -- rewrite (Hother j e pc0) in Hp; auto. discriminate.
+      * intros a b ea pa eb pb Ha Hb Hpa Hpb. thr_cases Hi Ha; thr_cases Hi Hb; auto.
+        -- rewrite (Hother b eb pb) in Hpb; auto. discriminate.
+        -- rewrite (Hother a ea pa) in Hpa; auto. discriminate.
+        -- eapply K3; eauto.
+      * intros Hc. congruence.
+      * lia.
+      * rewrite I1. exact I.
+      * intros Hne. congruence.
+    + (* cancel *) inversion H; subst; clear H.
+      destruct (K2 _ _ _ Hi eq_refl) as (C1 & W1 & I1 & E1 & L1 & X1). specialize (L1 eq_refl).
+      constructor; cbn [k_set sc_closed sc_ctx sc_tclosed sc_creturned sc_winner sc_inactive sc_threads].
+      * exact K1.
+      * intros j e pc0 Hn Hp. thr_cases Hi Hn.
+        -- inversion E; subst. repeat split; auto; intros; discriminate.
+        -- destruct (K2 _ _ _ Hj Hp) as (a1 & a2 & a3 & a4 & a5 & a6). repeat split; auto.
+      * intros a b ea pa eb pb Ha Hb Hpa Hpb. thr_cases Hi Ha; thr_cases Hi Hb; auto; try (eapply (K3 a b); eauto; fail); try (eapply K3; eauto; fail).
+      * exact K4.
+      * exact K5.
+      * rewrite I1. exact I.
+      * intros Hne. congruence.
+    + (* inactive *) inversion H; subst; clear H.
+      destruct (K2 _ _ _ Hi eq_refl) as (C1 & W1 & I1 & E1 & L1 & X1). specialize (L1 eq_refl). specialize (X1 eq_refl).
+      assert (Hother : forall j e pc0, j <> i -> nth_error (sc_threads s) j = Some (YCloser e pc0) -> past pc0 = false).
+      { intros j e pc0 Hne Hn. destruct (past pc0) eqn:Ep; [|reflexivity]. exfalso. apply Hne. eapply K3; eauto. }
+      constructor; cbn [k_set sc_closed sc_ctx sc_tclosed sc_creturned sc_winner sc_inactive sc_threads].
+      * intros _. exact C1.
+      * intros j e pc0 Hn Hp. thr_cases Hi Hn; [discriminate|]. rewrite (Hother j e pc0) in Hp; auto. discriminate.
+      * intros a b ea pa eb pb Ha Hb Hpa Hpb. thr_cases Hi Ha; [discriminate|]. thr_cases Hi Hb; [discriminate|]. eapply K3; eauto.
+      * intros Hc. congruence.
+      * exact K5.
+      * rewrite I1. cbn [app]. repeat split; auto.
+      * intros _ j e pc0 Hn. thr_cases Hi Hn; [discriminate|]. assert (Hx : past pc0 = false) by (apply (Hother j e pc0); auto). destruct pc0; try discriminate. reflexivity.
+Qed.
+
+Theorem kinv_run sched : forall s, KInv s -> KInv (sc_run s sched).
+Proof.
+  induction sched as [|e r IH]; intros s Hi; cbn [sc_run]; [exact Hi|].
+  destruct (sc_step s e) as [s'|] eqn:E; [apply IH; eapply kinv_step; eauto|apply IH; exact Hi].
+Qed.
+
+(* ---------- the write lock and the transport log ---------- *)
+Record SInv (s : sst) : Prop := {
+  S_lock : forall j t, nth_error (sc_threads s) j = Some t -> (y_holds t = true <-> sc_lock s = Some j);
+  S_once : forall p, y_cnt_in p (sc_tlog s) + ysum p (sc_threads s) <= 1;
+  S_fl : forall j c rest res, nth_error (sc_threads s) j = Some (YWriter (c :: rest) YFlush res) -> In c (sc_tlog s);
+  S_fle : sc_flushed s <= length (sc_tlog s);
+  S_ok : forall j t p, nth_error (sc_threads s) j = Some t -> In p (y_oks t) -> In p (firstn (sc_flushed s) (sc_tlog s));
+  S_lockex : forall j, sc_lock s = Some j -> j < length (sc_threads s) }.
+
+Lemma in_firstn_in (p : nat) n l : In p (firstn n l) -> In p l.
+Proof. intros H. rewrite <- (firstn_skipn n l). apply in_or_app. left. exact H. Qed.
+Lemma in_firstn_app (p : nat) n l l' : n <= length l -> In p (firstn n l) -> In p (firstn n (l ++ l')).
+Proof. intros Hn H. rewrite firstn_app. apply in_or_app. left. exact H. Qed.
+Lemma refused_app calls pc res c r : y_refused (YWriter calls pc (res ++ [(c, r)])) =
+  y_refused (YWriter calls pc res) ++ match r with YClosed => [c] | _ => [] end.
+Proof. cbn [y_refused]. rewrite flat_map_app. cbn. rewrite app_nil_r. reflexivity. Qed.
+Lemma oks_app calls pc res c r : y_oks (YWriter calls pc (res ++ [(c, r)])) =
+  y_oks (YWriter calls pc res) ++ match r with YOk => [c] | _ => [] end.
+Proof. cbn [y_oks]. rewrite flat_map_app. cbn. rewrite app_nil_r. reflexivity. Qed.
+Lemma refused_pc calls calls' pc pc' res : y_refused (YWriter calls pc res) = y_refused (YWriter calls' pc' res).
+Proof. reflexivity. Qed.
+
+(* steps of closers and of the parent leave the writers' part of the state alone *)
+Lemma sinv_other s s' i t t' : SInv s -> nth_error (sc_threads s) i = Some t ->
+  sc_lock s' = sc_lock s -> sc_tlog s' = sc_tlog s -> sc_flushed s' = sc_flushed s -> sc_threads s' = yupd (sc_threads s) i t' ->
+  y_holds t = false -> y_holds t' = false -> y_pending t = [] -> y_pending t' = [] -> y_refused t = [] -> y_refused t' = [] ->
+  y_oks t' = [] -> (forall c rest res, t' <> YWriter (c :: rest) YFlush res) ->
+  SInv s'.
+Proof.
+  intros [Hl Ho Hf Hfe Hk Hlx] Hi El Et Ef Eth Ht Ht' Hp Hp' Hr Hr' Hk' Hnf. constructor; rewrite ?El, ?Et, ?Ef, ?Eth; [| | | | |rewrite yupd_length; exact Hlx].
+  - intros j x Hn. thr_cases Hi Hn.
+    + subst x. rewrite Ht'. pose proof (Hl _ _ Hi) as Hx. rewrite Ht in Hx. tauto.
+    + apply Hl; auto.
+  - intros p. pose proof (ysum_upd p _ _ _ t' Hi) as Hc. rewrite Hp, Hp', Hr, Hr' in Hc. specialize (Ho p). unfold y_cnt_in in *; cbn [count_occ] in Hc. lia.
+  - intros j c rest res Hn. thr_cases Hi Hn; [exfalso; eapply Hnf; eauto|]. eapply Hf; eauto.
+  - exact Hfe.
+  - intros j x p Hn Hin. thr_cases Hi Hn; [subst x; rewrite Hk' in Hin; destruct Hin|]. eapply Hk; eauto.
+Qed.
 
 Lemma sinv_step s e s' : SInv s -> sc_step s e = Some s' -> SInv s'.
 Proof.
-  intros [Hl Hg Ho] H. constructor.
-  - intros j t Hn. ycases H; try (apply Hl; exact Hn);
-      match goal with Hi : nth_error (sc_threads s) ?i = Some ?ti |- _ =>
-        pose proof (Hl i ti Hi) as Hli; cbn [holds] in Hli;
-        destruct (ynth_cases _ _ _ _ _ _ Hi Hn) as [[<- ->]|[Hne Hj]];
-        [cbn [holds]; try tauto; try (split; [discriminate|intros E; inversion E]); try (split; auto; fail)
-        |specialize (Hl j t Hj)]
-      end;
-      try (match goal with E : sc_lock s = _ |- _ => rewrite E in * end);
-      try tauto;
-      try (destruct Hli as [Hli _]; specialize (Hli eq_refl); rewrite Hli in Hl;
-           split; [intros Hx; apply Hl in Hx; inversion Hx; congruence|discriminate]);
-      try (split; [intros Hx; apply Hl in Hx; discriminate|intros Hx; inversion Hx; congruence]).
-  - ycases H; auto. rewrite Hg. reflexivity.
-  - intros p. specialize (Ho p). ycases H; auto;
-      match goal with Hn : nth_error (sc_threads s) ?i = Some ?t |- context [yupd (sc_threads s) ?i ?t'] =>
-        pose proof (ysum_upd p (sc_threads s) i t t' Hn) as Hc end;
-      unfold cnt_in in *; cbn [y_pending tl count_occ] in *; rewrite ?count_occ_app in *; cbn [count_occ] in *;
-      try (match goal with |- context [Nat.eq_dec ?a ?b] => destruct (Nat.eq_dec a b) end); try lia;
-      try (match goal with Hx : context [Nat.eq_dec ?a ?b] |- _ => destruct (Nat.eq_dec a b) end); lia.
+  intros S H. destruct e as [i f|]; cbn [sc_step] in H.
+  2:{ inversion H; subst; clear H. destruct S as [Hl Ho Hf Hfe Hk Hlx]. constructor; cbn; auto. }
+  destruct (nth_error (sc_threads s) i) as [t|] eqn:Hi; [|discriminate].
+  destruct t as [calls pc res|er pc|]; [| |discriminate].
+  2:{ (* closer *)
+      destruct pc; cbn in H; try (destruct (sc_closed s)); inversion H; subst; clear H;
+        (eapply (sinv_other s _ i _ _ S Hi); try reflexivity; intros; congruence). }
+  destruct calls as [|c rest]; [discriminate|].
+  destruct S as [Hl Ho Hf Hfe Hk Hlx].
+  assert (Hilt : i < length (sc_threads s)) by (apply nth_error_Some; congruence).
+  pose proof (Hl _ _ Hi) as Hli. cbn [y_holds] in Hli.
+  destruct pc; cbn [y_ret] in H.
+  - (* check *)
+    destruct (closed_err s); inversion H; subst; clear H;
+      constructor; cbn [y_set sc_lock sc_tlog sc_flushed sc_threads]; try (rewrite yupd_length; first [exact Hlx|intros ? Hq; inversion Hq; subst; exact Hilt|intros ? Hq; discriminate Hq]).
+    + intros j x Hn. thr_cases Hi Hn; [subst x; cbn [y_holds]; tauto|apply Hl; auto].
+    + intros p. pose proof (ysum_upd p _ _ _ (YWriter rest YCheck (res ++ [(c, YClosed)])) Hi) as Hc.
+      rewrite refused_app in Hc. cbn [y_pending] in Hc. unfold y_cnt_in in *. rewrite count_occ_app in Hc. cbn [count_occ] in *.
+      specialize (Ho p). cbn [y_refused] in *. destruct (Nat.eq_dec c p); lia.
+    + intros j c0 r0 res0 Hn. thr_cases Hi Hn; [discriminate|]. eapply Hf; eauto.
+    + exact Hfe.
+    + intros j x p Hn Hin. thr_cases Hi Hn; [subst x; rewrite oks_app, app_nil_r in Hin; eapply (Hk i); eauto|eapply Hk; eauto].
+    + intros j x Hn. thr_cases Hi Hn; [subst x; cbn [y_holds]; tauto|apply Hl; auto].
+    + intros p. pose proof (ysum_upd p _ _ _ (YWriter (c :: rest) YLock res) Hi) as Hc. cbn [y_pending y_refused] in Hc. specialize (Ho p). cbn [y_refused] in *. lia.
+    + intros j c0 r0 res0 Hn. thr_cases Hi Hn; [discriminate|]. eapply Hf; eauto.
+    + exact Hfe.
+    + intros j x p Hn Hin. thr_cases Hi Hn; [subst x; eapply (Hk i); eauto|eapply Hk; eauto].
+  - (* lock *)
+    destruct (sc_lock s) eqn:El; [discriminate|]. inversion H; subst; clear H.
+    constructor; cbn [y_set sc_lock sc_tlog sc_flushed sc_threads]; try (rewrite yupd_length; first [exact Hlx|intros ? Hq; inversion Hq; subst; exact Hilt|intros ? Hq; discriminate Hq]).
+    + intros j x Hn. thr_cases Hi Hn; [subst x; cbn [y_holds]; tauto|].
+      pose proof (Hl _ _ Hj) as Hx. split; [intros Hh; apply Hx in Hh; discriminate|intros Hs; inversion Hs; congruence].
+    + intros p. pose proof (ysum_upd p _ _ _ (YWriter (c :: rest) YWrite res) Hi) as Hc. cbn [y_pending y_refused] in Hc. specialize (Ho p). cbn [y_refused] in *. lia.
+    + intros j c0 r0 res0 Hn. thr_cases Hi Hn; [discriminate|]. eapply Hf; eauto.
+    + exact Hfe.
+    + intros j x p Hn Hin. thr_cases Hi Hn; [subst x; eapply (Hk i); eauto|eapply Hk; eauto].
+  - (* write *)
+    assert (Elk : sc_lock s = Some i) by (apply Hli; reflexivity).
+    destruct (orb (0 <? sc_tclosed s) f); inversion H; subst; clear H;
+      constructor; cbn [y_set sc_lock sc_tlog sc_flushed sc_threads]; try (rewrite yupd_length; first [exact Hlx|intros ? Hq; inversion Hq; subst; exact Hilt|intros ? Hq; discriminate Hq]).
+    + intros j x Hn. thr_cases Hi Hn; [subst x; cbn [y_holds]; split; discriminate|].
+      pose proof (Hl _ _ Hj) as Hx. rewrite Elk in Hx. split; [intros Hh; apply Hx in Hh; inversion Hh; congruence|discriminate].
+    + intros p. pose proof (ysum_upd p _ _ _ (YWriter rest YCheck (res ++ [(c, YFail)])) Hi) as Hc.
+      rewrite refused_app, app_nil_r in Hc. cbn [y_pending] in Hc.
+      unfold y_cnt_in in *. cbn [count_occ] in *. specialize (Ho p). cbn [y_refused] in *. destruct (Nat.eq_dec c p); lia.
+    + intros j c0 r0 res0 Hn. thr_cases Hi Hn; [discriminate|]. eapply Hf; eauto.
+    + exact Hfe.
+    + intros j x p Hn Hin. thr_cases Hi Hn; [subst x; rewrite oks_app, app_nil_r in Hin; eapply (Hk i); eauto|eapply Hk; eauto].
+    + intros j x Hn. thr_cases Hi Hn; [subst x; cbn [y_holds]; tauto|apply Hl; auto].
+    + intros p. pose proof (ysum_upd p _ _ _ (YWriter (c :: rest) YFlush res) Hi) as Hc. cbn [y_pending y_refused tl] in Hc.
+      unfold y_cnt_in in *. rewrite count_occ_app. cbn [count_occ] in *. specialize (Ho p). cbn [y_refused] in *. destruct (Nat.eq_dec c p); lia.
+    + intros j c0 r0 res0 Hn. apply in_or_app. thr_cases Hi Hn; [inversion E; subst; right; left; reflexivity|left; eapply Hf; eauto].
+    + rewrite app_length. cbn. lia.
+    + intros j x p Hn Hin. apply in_firstn_app; [exact Hfe|]. thr_cases Hi Hn; [subst x; eapply (Hk i); eauto|eapply Hk; eauto].
+  - (* flush *)
+    assert (Elk : sc_lock s = Some i) by (apply Hli; reflexivity).
+    pose proof (Hf _ _ _ _ Hi) as Hc_in.
+    destruct (orb (0 <? sc_tclosed s) f); inversion H; subst; clear H;
+      constructor; cbn [y_set sc_lock sc_tlog sc_flushed sc_threads]; try (rewrite yupd_length; first [exact Hlx|intros ? Hq; inversion Hq; subst; exact Hilt|intros ? Hq; discriminate Hq]).
+    + intros j x Hn. thr_cases Hi Hn; [subst x; cbn [y_holds]; split; discriminate|].
+      pose proof (Hl _ _ Hj) as Hx. rewrite Elk in Hx. split; [intros Hh; apply Hx in Hh; inversion Hh; congruence|discriminate].
+    + intros p. pose proof (ysum_upd p _ _ _ (YWriter rest YCheck (res ++ [(c, YFail)])) Hi) as Hc.
+      rewrite refused_app, app_nil_r in Hc. cbn [y_pending tl] in Hc. specialize (Ho p). cbn [y_refused] in *. lia.
+    + intros j c0 r0 res0 Hn. thr_cases Hi Hn; [discriminate|]. eapply Hf; eauto.
+    + exact Hfe.
+    + intros j x p Hn Hin. thr_cases Hi Hn; [subst x; rewrite oks_app, app_nil_r in Hin; eapply (Hk i); eauto|eapply Hk; eauto].
+    + intros j x Hn. thr_cases Hi Hn; [subst x; cbn [y_holds]; split; discriminate|].
+      pose proof (Hl _ _ Hj) as Hx. rewrite Elk in Hx. split; [intros Hh; apply Hx in Hh; inversion Hh; congruence|discriminate].
+    + intros p. pose proof (ysum_upd p _ _ _ (YWriter rest YCheck (res ++ [(c, YOk)])) Hi) as Hc.
+      rewrite refused_app, app_nil_r in Hc. cbn [y_pending tl] in Hc. specialize (Ho p). cbn [y_refused] in *. lia.
+    + intros j c0 r0 res0 Hn. thr_cases Hi Hn; [discriminate|]. eapply Hf; eauto.
+    + lia.
+    + intros j x p Hn Hin. rewrite firstn_all. thr_cases Hi Hn.
+      * subst x. rewrite oks_app in Hin. apply in_app_or in Hin. destruct Hin as [Hin|[<-|[]]]; [|exact Hc_in].
+        eapply in_firstn_in. eapply (Hk i); eauto.
+      * eapply in_firstn_in. eapply Hk; eauto.
 Qed.
 
 Theorem sinv_run sched : forall s, SInv s -> SInv (sc_run s sched).
@@ -76,32 +310,178 @@ Proof.
   assert (existsb (Nat.eqb x) r = true) by (apply existsb_exists; exists x; split; [exact Hin|apply Nat.eqb_refl]). congruence.
 Qed.
 
-Lemma ysum_flat p l : ysum p l = cnt_in p (flat_map y_pending l).
-Proof. induction l as [|a l IH]; cbn; [reflexivity|]. unfold cnt_in in *. rewrite count_occ_app, IH. reflexivity. Qed.
+Definition y_init_thread (t : ythread) : bool :=
+  match t with YWriter _ YCheck [] => true | YCloser _ KCas => true | YDone => true | _ => false end.
+Lemma wf_threads ths : sc_wf ths = true -> forall t, In t ths -> y_init_thread t = true.
+Proof. unfold sc_wf. rewrite andb_true_iff. intros [Hs _]. rewrite forallb_forall in Hs. exact Hs. Qed.
+Lemma ysum_flat p l : (forall t, In t l -> y_init_thread t = true) -> ysum p l = y_cnt_in p (flat_map y_pending l).
+Proof.
+  induction l as [|a l IH]; intros Hall; cbn [ysum flat_map]; [reflexivity|]. unfold y_cnt_in in *. rewrite count_occ_app, IH by (intros; apply Hall; right; auto).
+  assert (Ha : y_init_thread a = true) by (apply Hall; left; auto).
+  destruct a as [c [] [|]|e []|]; cbn in Ha; try discriminate; cbn [y_refused flat_map count_occ]; lia.
+Qed.
 
 Theorem sinv_init ths : sc_wf ths = true -> SInv (sc_init ths).
 Proof.
-  unfold sc_wf. rewrite andb_true_iff. intros [Hs Hn]. rewrite forallb_forall in Hs. constructor; cbn [sc_init sc_lock sc_tlog sc_accepted sc_threads].
-  - intros j t Hj. specialize (Hs t (nth_error_In _ _ Hj)). destruct t as [? [] [|]|]; cbn in *; try discriminate; split; discriminate.
-  - reflexivity.
-  - intros p. rewrite ysum_flat. unfold cnt_in. cbn [count_occ]. apply (proj1 (NoDup_count_occ Nat.eq_dec _) (nodup_nat_spec _ Hn)).
+  intros Hw. pose proof (wf_threads _ Hw) as Hs. unfold sc_wf in Hw. rewrite andb_true_iff in Hw. destruct Hw as [_ Hn].
+  constructor; cbn [sc_init sc_lock sc_tlog sc_flushed sc_threads].
+  - intros j t Hj. specialize (Hs t (nth_error_In _ _ Hj)). destruct t as [? [] [|]|? []|]; cbn in *; try discriminate; split; discriminate.
+  - intros p. rewrite ysum_flat by exact Hs. unfold y_cnt_in. cbn [count_occ]. apply (proj1 (NoDup_count_occ Nat.eq_dec _) (nodup_nat_spec _ Hn)).
+  - intros j c rest res Hj. specialize (Hs _ (nth_error_In _ _ Hj)). discriminate.
+  - cbn. lia.
+  - intros j t p Hj Hin. specialize (Hs _ (nth_error_In _ _ Hj)). destruct t as [? [] [|]|? []|]; cbn in *; try discriminate; destruct Hin.
+  - intros j Hj; discriminate.
 Qed.
 
-(* mutual exclusion of whole calls; the transport log is exactly the accepted payloads, each at most once *)
+Theorem kinv_init ths : sc_wf ths = true -> KInv (sc_init ths).
+Proof.
+  intros Hw. pose proof (wf_threads _ Hw) as Hs.
+  assert (Hc : forall j e pc, nth_error ths j = Some (YCloser e pc) -> pc = KCas).
+  { intros j e pc Hj. specialize (Hs _ (nth_error_In _ _ Hj)). destruct pc; cbn in Hs; try discriminate. reflexivity. }
+  constructor; cbn [sc_init sc_closed sc_ctx sc_tclosed sc_creturned sc_winner sc_inactive sc_threads].
+  - discriminate.
+  - intros j e pc Hj Hp. rewrite (Hc _ _ _ Hj) in Hp. discriminate.
+  - intros i j ei pi ej pj Ha Hb Hp. rewrite (Hc _ _ _ Ha) in Hp. discriminate.
+  - auto.
+  - lia.
+  - exact I.
+  - intros H; congruence.
+Qed.
+
+(* C01, synchronous channel: whole calls are serialised by the write lock; each payload reaches the transport at
+   most once; a call that returned success has its payload on the transport AND flushed; a call refused with the
+   close error transmitted nothing *)
 Theorem sync_correct ths sched : sc_wf ths = true ->
   let s := sc_run (sc_init ths) sched in
-  SInv s /\ (forall p, In p (sc_tlog s) -> In p (sc_accepted s)) /\ NoDup (sc_tlog s).
+  NoDup (sc_tlog s) /\
+  (forall i j ti tj, nth_error (sc_threads s) i = Some ti -> nth_error (sc_threads s) j = Some tj ->
+     y_holds ti = true -> y_holds tj = true -> i = j) /\
+  (forall j t p, nth_error (sc_threads s) j = Some t -> In p (y_oks t) -> In p (firstn (sc_flushed s) (sc_tlog s))) /\
+  (forall j t p, nth_error (sc_threads s) j = Some t -> In p (y_refused t) -> ~ In p (sc_tlog s)).
 Proof.
-  intros Hw s. assert (Hi : SInv s) by (apply sinv_run, sinv_init; exact Hw).
-  split; [exact Hi|]. split.
-  - intros p Hp. rewrite <- (S_log s Hi). exact Hp.
-  - apply (NoDup_count_occ Nat.eq_dec). intros p. pose proof (S_once s Hi p). unfold cnt_in in *. lia.
+  intros Hw s. assert (Hi : SInv s) by (apply sinv_run, sinv_init; exact Hw). split; [|split; [|split]].
+  - apply (NoDup_count_occ Nat.eq_dec). intros p. pose proof (S_once s Hi p). unfold y_cnt_in in *. lia.
+  - intros i j ti tj Hni Hnj Hhi Hhj. apply (S_lock s Hi i ti Hni) in Hhi. apply (S_lock s Hi j tj Hnj) in Hhj. congruence.
+  - exact (S_ok s Hi).
+  - intros j t p Hj Hin Hlog. pose proof (S_once s Hi p) as Ho.
+    assert (H1 : 1 <= y_cnt_in p (sc_tlog s)) by (apply (count_occ_In Nat.eq_dec); exact Hlog).
+    assert (H2 : 1 <= ysum p (sc_threads s)).
+    { clear - Hj Hin. revert j Hj. induction (sc_threads s) as [|a l IH]; intros [|j] Hj; cbn in Hj; try discriminate.
+      - inversion Hj; subst. cbn [ysum]. assert (1 <= y_cnt_in p (y_refused t)) by (apply (count_occ_In Nat.eq_dec); exact Hin). lia.
+      - cbn [ysum]. specialize (IH _ Hj). lia. }
+    lia.
 Qed.
 
-(* at most one writer is inside transport.Write/Flush at any time *)
-Theorem sync_mutex s i j ti tj : SInv s -> nth_error (sc_threads s) i = Some ti -> nth_error (sc_threads s) j = Some tj ->
-  holds ti = true -> holds tj = true -> i = j.
+(* C05, synchronous channel: whatever the number of racing Close calls, the transport is closed at most once and the
+   inactive event fires at most once, after the transport was closed and the context cancelled, carrying the error of
+   the Close call that won the flag *)
+Theorem sync_close_once ths sched : sc_wf ths = true ->
+  let s := sc_run (sc_init ths) sched in
+  sc_tclosed s <= 1 /\ length (sc_inactive s) <= 1 /\
+  (forall e, sc_inactive s = [e] -> sc_winner s = Some e /\ sc_tclosed s = 1 /\ sc_ctx s = true).
 Proof.
-  intros Hi Hni Hnj Hhi Hhj. apply (S_lock s Hi i ti Hni) in Hhi. apply (S_lock s Hi j tj Hnj) in Hhj. congruence.
+  intros Hw s. assert (K : KInv s) by (apply kinv_run, kinv_init; exact Hw).
+  split; [exact (K_t s K)|]. pose proof (K_ina s K) as Hi. destruct (sc_inactive s) as [|a [|b l]]; cbn; split; try lia; try tauto.
+  - intros e He; discriminate.
+  - intros e He. inversion He; subst. exact Hi.
 Qed.
 
+(* C11, synchronous channel: once ANY Close call has returned - the one that took effect or one that lost the race -
+   the closed flag is set (K_ret), and a write entry point that starts then returns the close error, leaves the lock
+   alone and transmits nothing.  The flag, not the context, is what counts: the context is cancelled only after
+   transport.Close, which may still be under way when a losing Close call returns *)
+Theorem sync_write_after_close s i c rest res f : KInv s -> sc_creturned s = true ->
+  nth_error (sc_threads s) i = Some (YWriter (c :: rest) YCheck res) ->
+  exists s', sc_step s (YRun i f) = Some s' /\
+    nth_error (sc_threads s') i = Some (YWriter rest YCheck (res ++ [(c, YClosed)])) /\
+    sc_tlog s' = sc_tlog s /\ sc_lock s' = sc_lock s /\ sc_flushed s' = sc_flushed s.
+Proof.
+  intros K Hr Hi. pose proof (K_ret s K Hr) as Hc. cbn [sc_step]. rewrite Hi. unfold closed_err. rewrite Hc. cbn [orb].
+  eexists. split; [reflexivity|]. cbn [y_set sc_threads sc_tlog sc_lock sc_flushed y_ret]. rewrite (ynth_same _ _ _ _ Hi). auto.
+Qed.
+Lemma creturned_mono s e s' : sc_step s e = Some s' -> sc_creturned s = true -> sc_creturned s' = true.
+Proof.
+  intros H Hr. destruct e as [i f|]; cbn [sc_step] in H; [|inversion H; subst; exact Hr].
+  destruct (nth_error (sc_threads s) i) as [[[|c rest] pc res|e pc|]|]; try discriminate.
+  - destruct pc; cbn [y_ret] in H;
+      repeat match type of H with context [if ?b then _ else _] => destruct b end;
+      try (destruct (sc_lock s); [discriminate|]); inversion H; subst; exact Hr.
+  - destruct pc; cbn in H; try (destruct (sc_closed s)); inversion H; subst; cbn; auto.
+Qed.
+
+(* C07 / C02, synchronous channel: the write lock is released on every path (also when the transport fails), so a
+   thread that is not finished is either able to step or waits for a lock holder that is able to step *)
+Theorem sync_progress s i t : SInv s -> nth_error (sc_threads s) i = Some t -> y_finished t = false ->
+  y_enabled s i = true \/ exists j, sc_lock s = Some j /\ j <> i /\ y_enabled s j = true.
+Proof.
+  intros S Hi Hf. unfold y_enabled at 1. cbn [sc_step]. rewrite Hi.
+  destruct t as [[|c rest] pc res|e pc|]; cbn in Hf; try discriminate.
+  - destruct pc.
+    1,3,4: left; try destruct (closed_err s); try destruct (orb (0 <? sc_tclosed s) false); reflexivity.
+    destruct (sc_lock s) as [j|] eqn:El; [|left; reflexivity]. right. exists j.
+    (* the holder is a writer inside transport.Write / Flush: those steps never block *)
+    assert (Hne : j <> i).
+    { intros ->. pose proof (proj2 (S_lock s S _ _ Hi) El) as Hx. discriminate. }
+    split; [reflexivity|]. split; [exact Hne|].
+    destruct (nth_error (sc_threads s) j) as [tj|] eqn:Hj.
+    + pose proof (proj2 (S_lock s S _ _ Hj) El) as Hh. unfold y_enabled. cbn [sc_step]. rewrite Hj.
+      destruct tj as [[|cj rj] [] resj|? ?|]; cbn in Hh; try discriminate;
+        try destruct (orb (0 <? sc_tclosed s) false); try reflexivity.
+
+    + exfalso. (* the lock names an existing thread *)
+      pose proof (S_lockex s S _ El) as Hlt. apply nth_error_None in Hj. lia.
+  - left. destruct pc; cbn; try (destruct (sc_closed s)); reflexivity.
+Qed.
+
+(* in a state where no thread can step, every call has returned and every Close has completed: no deadlock *)
+Theorem sync_quiescent_all_done s : SInv s -> (forall i, y_enabled s i = false) ->
+  forall i t, nth_error (sc_threads s) i = Some t -> y_finished t = true.
+Proof.
+  intros S Hq i t Hi. destruct (y_finished t) eqn:Hf; [reflexivity|].
+  destruct (sync_progress s i t S Hi Hf) as [He|(j & _ & _ & He)]; rewrite Hq in He; discriminate.
+Qed.
+
+(* termination: every thread step strictly decreases the remaining work *)
+Definition pc_idx (pc : ypc) : nat := match pc with YCheck => 0 | YLock => 1 | YWrite => 2 | YFlush => 3 end.
+Definition k_idx (pc : ykpc) : nat :=
+  match pc with KCas => 0 | KSetErr => 1 | KTClose => 2 | KTClosing => 3 | KCancel => 4 | KInactive => 5 end.
+Definition y_weight (t : ythread) : nat :=
+  match t with
+  | YWriter calls pc _ => 4 * length calls - pc_idx pc
+  | YCloser _ pc => 7 - k_idx pc
+  | YDone => 0
+  end.
+Fixpoint y_meas (l : list ythread) : nat := match l with [] => 0 | t :: r => y_weight t + y_meas r end.
+Lemma ymeas_upd l i t t' : nth_error l i = Some t -> y_meas (yupd l i t') + y_weight t = y_meas l + y_weight t'.
+Proof.
+  revert i; induction l as [|a l IH]; intros [|i] H; simpl in *; try discriminate.
+  - inversion H; subst. lia.
+  - specialize (IH _ H). lia.
+Qed.
+Theorem sync_step_decreases s i f s' : sc_step s (YRun i f) = Some s' -> y_meas (sc_threads s') < y_meas (sc_threads s).
+Proof.
+  cbn [sc_step]. destruct (nth_error (sc_threads s) i) as [t|] eqn:Hi; [|discriminate].
+  destruct t as [[|c rest] pc res|e pc|]; try discriminate; intros H.
+  - destruct pc; cbn [y_ret] in H;
+      try destruct (closed_err s); try destruct (orb (0 <? sc_tclosed s) f); try (destruct (sc_lock s); [discriminate|]);
+      inversion H; subst; clear H; cbn [y_set sc_threads];
+      match goal with |- context [yupd _ _ ?t'] => pose proof (ymeas_upd _ _ _ t' Hi) as Hm end;
+      cbn [y_weight length pc_idx] in Hm; lia.
+  - destruct pc; cbn in H; try destruct (sc_closed s); inversion H; subst; clear H; cbn [k_set sc_threads];
+      match goal with |- context [yupd _ _ ?t'] => pose proof (ymeas_upd _ _ _ t' Hi) as Hm end;
+      cbn [y_weight k_idx] in Hm; lia.
+Qed.
+(* hence no execution of the synchronous channel is infinite: a run of n enabled thread steps needs n <= initial work *)
+Fixpoint all_runs (s : sst) (sched : list (nat * bool)) : option sst :=
+  match sched with
+  | [] => Some s
+  | (i, f) :: r => match sc_step s (YRun i f) with Some s' => all_runs s' r | None => None end
+  end.
+Theorem sync_no_infinite_execution sched : forall s s', all_runs s sched = Some s' ->
+  length sched + y_meas (sc_threads s') <= y_meas (sc_threads s).
+Proof.
+  induction sched as [|[i f] r IH]; intros s s' H; cbn [all_runs length] in *.
+  - inversion H; subst. lia.
+  - destruct (sc_step s (YRun i f)) as [s1|] eqn:E; [|discriminate].
+    pose proof (sync_step_decreases _ _ _ _ E). specialize (IH _ _ H). lia.
+Qed.
